@@ -57,7 +57,11 @@ def gen_one(rng, big):
     _stats["n_values"][key] = _stats["n_values"].get(key, 0) + 1
     method = rng.choice(BODY_METHODS)
     version = "1.1" if method != "POST" or rng.random() < 0.7 else "1.0"
-    ops = entry(rng, method, version, n)
+    if rng.random() < 0.5:
+        ops = entry(rng, method, version, n)
+    else:
+        ops, route = send_context(rng, ("length", n))
+        _stats["entry"]["ctx:" + route] = _stats["entry"].get("ctx:" + route, 0) + 1
     left = n
     nops = rng.randrange(1, 15)
     for _ in range(nops):
@@ -117,9 +121,19 @@ def gen_loop(rng):
     return {"ops": ops, "meta": {"n": n, "loop": True}}
 
 
+def big_writes():
+    """Deterministic: more than one chunk size / 64 KiB / 1 MiB written in ONE call (input, output and remaining length all larger)."""
+    out = []
+    for n in (10241, 65537, 1048577):
+        ops = [op_new("POST", "1.1", "http", "a.test", "/up", [("content-length", str(n + 5))]), "proceed", "write_head #4096", "proceed",
+               "write_body z%d %s" % (n, num(n + 100)), "q_can_proceed", "write_body %s #100" % hx(b"12345"), "q_can_proceed", "proceed"]
+        out.append({"ops": ops, "meta": {"n": n + 5}})
+    return out
+
+
 def generate(rng, tier, mult):
     count = (1500 if tier == "quick" else 12000) * mult
-    out = [gen_one(rng, big=(i % 40 == 0)) for i in range(count)]
+    out = big_writes() + [gen_one(rng, big=(i % 40 == 0)) for i in range(count)]
     out += [gen_loop(rng) for _ in range(20 if tier == "quick" else 200)]
     _stats["ops"] = sum(len(s["ops"]) for s in out)
     return out
